@@ -119,6 +119,20 @@ CHECKS = {
         note=TB + " svd: singular values sorted and non-negative; qr(mode='r') opaque; real powers uninterpreted (rpow) with sign facts.",
         technique="contract-based deductive verification: per-step recurrences as postconditions, AST->VC, z3",
     ),
+    "C14": dict(
+        text=("'Nothing needed to continue lives outside the state pytree' as frame conditions: one syntactic frame obligation "
+              "per function of the 12 optimizer modules (no global/nonlocal, no store into module-global or closure-captured "
+              "objects, parameters written only per the sidecar assigns clauses, no process-global randomness/time/environment), "
+              "plus the alias rule by symbolic execution of the real update entry points (Distributed Shampoo update_fn, SM3, "
+              "Tearfree Shampoo / Sketchy / grafting / momentum) with every state leaf tagged as a caller-owned NumPy array: no "
+              "augmented assignment reaches a leaf or a view of it. Compile-level effects and the actual serialization are "
+              "reached only by the labelled bounded native resume harness (7 optimizer modes x interruption points), which "
+              "runs in both tiers and is not counted as proved."),
+        design="7/C14",
+        note=TB + " The frame checker is syntactic and conservative; NumPy aliasing semantics (in-place augmented assignment, "
+        "views from basic indexing, jnp results fresh) are modelled; flax serialization and XLA determinism are assumed.",
+        technique="contract-based deductive verification: frame obligations (syntactic checker + symbolic alias execution); bounded native resume harness as stand-in",
+    ),
 }
 
 NA_REASON = "check not built yet (build in progress); the planned contract kernel is described in DESIGN.md section 7"
